@@ -1,6 +1,25 @@
-"""C17: Selective (lazy) solving equals full recomputation. See DESIGN.md section 4 (C17), checks/lmm_check.py and checks/lmm_common.py."""
+"""C17: Selective (lazy) solving equals full recomputation.  See DESIGN.md section 4 (C17), checks/lmm_check.py (pipeline) and checks/lmm_common.py.
+
+What is decided: after every solve TLC compares (Lmm!SameI, on every consuming variable, within precision) the values of the
+selective MaxMin system with those of the non-selective one (SelFull) and with those of a fresh system rebuilt by the driver from
+the current activities and solved from scratch (SelFresh); C16's Exact adds equality with the exact allocation.  Families:
+regression, random, exhaustive 2-operation extensions, a `wrap` family in which the driver's seam (-fno-access-control, no hook
+in /repo needed) presets System::visited_counter_ next to UINT_MAX (operation ff), and the counter-example TLC finds in the mirror
+of the modified-set bookkeeping (LmmMC_mirror.cfg, invariant ModifiedSetComplete), replayed on the real code.
+M: Visited.tla model-checks the visit-stamp protocol with the counter modulo 3 (quick) / 4 (thorough), exhaustively: the rule of
+the code violates StampSound at the wrap-around, the proposed rule does not.
+
+Mutations tried (scratch worktree, quick tier with VERIF_LMM_SCALE=0.4):
+  M1  update_variable_bound does not call update_modified_cnst_set                              caught (SelFresh / SelFull, cause=none; exit 1)
+  M6  update_constraint_bound does not call update_modified_cnst_set (with M4, M5)              caught (SelFresh / SelFull, cause=none; exit 1)
+With the seven proposed fixes applied the check reports no rejection at all (the mirror still predicts the defect of the pinned
+bookkeeping; the fixed code passes the replayed counter-example).
+"""
 import lmm_check, lmm_common
 LEVEL = "model_checking"
+META = {"text": "TLC-generated histories (random, exhaustive 2-operation extensions, wrap-around family through a driver seam, TLC's counter-example of the bookkeeping mirror) are replayed on a selective MaxMin system, a non-selective one and a fresh system rebuilt after every solve; TLC compares the three allocations (and the exact one where unique). Visited.tla model-checks the visit-stamp protocol exhaustively with the counter modulo 3-4, including the wrap-around.",
+        "note": 'Trusted: TLC; the driver harness/lmm_driver.cpp (replays the operations through the public API of lmm::System, reads values back with get_value / get_penalty / get_concurrency_slack, scales doubles by 1e5 and rounds); tolerance = 1e5 * precision/work-amount per unit of magnitude + rounding. Conformance holds for the histories replayed (<= 3 constraints x 7 variables x 26 operations in the quick tier, <= 5 x 10 x 60 in the thorough tier; not the 12 x 20 systems of the statement), exhaustiveness only for Lmm.tla within the stated scope and for the 2-operation extensions of the base systems. In-situ dumps of simulations (hook H2) are not used. TLC -coverage cannot be used on these modules (it runs out of memory building its cost model): vacuity is guarded by measured operation counts. Rejections in the situations recorded in KNOWN_FINDINGS.jsonl (cause tags computed by TLC on the abstract system that follows the implementation) are reported as known findings; a mutation that only shows in those situations would be masked.',
+        "technique": 'TLC model checking of spec/lmm/Lmm.tla (LmmGen, small scope) + TLC-generated histories replayed into the real lmm::System classes (harness/lmm_driver.cpp) + TLC evaluation of the predicates on the logged values (LmmTrace.tla) + TLC model checking of Visited.tla'}
 DRIVERS = lmm_common.DRIVERS
 
 
